@@ -25,6 +25,7 @@ import h2.connection
 import h2.errors
 import h2.events
 import h2.exceptions
+import h2.settings
 import priority
 
 from twisted.internet._producer_helpers import _PullToPush
@@ -183,6 +184,8 @@ class H2Connection(Protocol, TimeoutMixin):
                 self._handleWindowUpdate(event)
             elif isinstance(event, h2.events.PriorityUpdated):
                 self._handlePriorityUpdate(event)
+            elif isinstance(event, h2.events.RemoteSettingsChanged):
+                self._handleRemoteSettingsChanged(event)
             elif isinstance(event, h2.events.ConnectionTerminated):
                 self.transport.loseConnection()
                 self.connectionLost(
@@ -663,7 +666,31 @@ class H2Connection(Protocol, TimeoutMixin):
             flow control window change.
         @type event: L{h2.events.WindowUpdated}
         """
-        streamID = event.stream_id
+        self._flowControlWindowOpened(event.stream_id)
+
+    def _handleRemoteSettingsChanged(self, event):
+        """
+        The peer changed its settings.  Raising C{SETTINGS_INITIAL_WINDOW_SIZE}
+        enlarges the flow control window of every open stream, exactly as a
+        C{WINDOW_UPDATE} for each of them would.
+
+        @param event: The Hyper-h2 event that describes the changed settings.
+        @type event: L{h2.events.RemoteSettingsChanged}
+        """
+        change = event.changed_settings.get(
+            h2.settings.SettingCodes.INITIAL_WINDOW_SIZE
+        )
+        if change is not None and change.new_value > (change.original_value or 0):
+            self._flowControlWindowOpened(0)
+
+    def _flowControlWindowOpened(self, streamID):
+        """
+        A flow control window grew: wake up whatever was waiting for it.
+
+        @param streamID: The ID of the stream whose window grew, or C{0} if
+            the change applies to all streams.
+        @type streamID: L{int}
+        """
         unblocked = False
 
         if streamID:
